@@ -257,7 +257,11 @@ def run_layer(task: Tuple, col: common.Collector) -> None:
 def run(tier: str, col: common.Collector) -> None:
     seed = common.seed()
     tasks: List[Tuple] = []
-    for i, m in enumerate(codecgen.grid_layers(tier, seed, per_layer=60)):
+    glayers = codecgen.grid_layers(tier, seed, per_layer=60)
+    if tier == "quick":
+        # the full grid is C02's job on every change; the round trip takes every other layer
+        glayers = glayers[(seed % 2)::2]
+    for i, m in enumerate(glayers):
         tasks.append(("grid", m, tier, seed * 100003 + i))
     for i, m in enumerate(codeccompose.layers(tier, seed)):
         tasks.append(("compose", m, tier, seed * 100019 + i))
